@@ -276,6 +276,11 @@ pub fn run_stream(case: &StreamCase, opts: RunOpts) -> (StreamObs, Option<(Buffe
                     kinds |= 128;
                 }
             }
+            // a resize request can also arrive indirectly (replayed from a macro, where the action is swallowed):
+            // the stream has left the quantifier of C09 as soon as the terminal size differs from the initial one
+            if resized.is_none() && !is_fixed_grid(&case.emu) && (buf.terminal_state.get_width() != case.w || buf.terminal_state.get_height() != case.h) {
+                resized = Some(i);
+            }
             if opts.check_geometry && geo.is_none() && resized.is_none() {
                 geo = check_geometry(&case.emu, &buf, &caret, i);
             }
